@@ -127,7 +127,13 @@ func (fr *frame) execInstr(ins ssa.Instruction, st *State) {
 	case *ssa.IndexAddr:
 		fr.vals[x] = fr.indexAddr(x, st)
 	case *ssa.Index:
-		fr.fail(x.Pos(), "Index on array value unsupported")
+		if !isString(x.X.Type()) {
+			fr.fail(x.Pos(), "Index on array value unsupported")
+		}
+		base := fr.get(x.X)
+		it := fr.intIndex(fr.get(x.Index), x)
+		fr.safety("index", x, st, And(Le(IntLit(0), it), Lt(it, StrLen(base.T))))
+		fr.vals[x] = fr.named(x, &Val{T: App("bytes", BV(8), StrArr(base.T), Idx(StrOff(base.T), it)), Ty: x.Type()})
 	case *ssa.Lookup:
 		fr.vals[x] = fr.lookup(x, st)
 	case *ssa.Store:
@@ -716,8 +722,16 @@ func (fr *frame) slice(x *ssa.Slice, st *State) *Val {
 			mx = SlCap(base.T)
 		}
 		fr.safety("slice", x, st, And(Le(IntLit(0), lo), Le(lo, hi), Le(hi, mx), Le(mx, SlCap(base.T))))
-		// slicing a nil slice [0:0] stays nil
-		return &Val{T: MkSlice(SlArr(base.T), Add(SlOff(base.T), lo), Sub(hi, lo), Sub(mx, lo)), Ty: x.Type()}
+		res := MkSlice(SlArr(base.T), Add(SlOff(base.T), lo), Sub(hi, lo), Sub(mx, lo))
+		if lv, ok := lo.IntVal(); ok && lv == 0 && !fr.isDiscovery {
+			// a prefix view has the same elements (named fact for the fold congruences)
+			key := fr.w.elemHeap(u.Elem())
+			pe := fr.vc.prefEq(key)
+			E := st.heap.get(key)
+			fr.vc.assume(st.reach, App(pe, SBool, E, res, E, base.T, hi))
+			fr.vc.assume(st.reach, App(pe, SBool, E, base.T, E, res, hi))
+		}
+		return &Val{T: res, Ty: x.Type()}
 	case *types.Pointer:
 		arr := types.Unalias(u.Elem()).Underlying().(*types.Array)
 		n := IntLit(arr.Len())
@@ -746,8 +760,10 @@ func (fr *frame) concat(a, b *Val, st *State, at ssa.Instruction) *Val {
 	arr := vc.fresh(fr.prefix+"cat", SInt)
 	n := Add(la, lb)
 	if at != nil {
-		fr.safety("overflow", at, st, Lt(n, IntLit(maxLen)))
+		fr.safety("overflow", at, st, Le(n, maxIntT))
 	}
+	// memory model: a string that exists is shorter than 2^48
+	vc.assume(st.reach, Lt(n, IntLit(maxLen)))
 	res := MkStr(arr, IntLit(0), n)
 	i := Sym(freshBinder("i"), SInt)
 	by := func(s *Term, k *Term) *Term { return App("bytes", BV(8), StrArr(s), Idx(StrOff(s), k)) }
